@@ -70,6 +70,9 @@ func acquireFromHolder(len int) (uintptr, *[]byte, error) {
 		logger.Error("placeholder space usage overflow", placeHolderIns.count, "hook functions")
 		return 0, nil, errSpaceOverflow
 	}
+	// the region owned by this request is the one reserved by the atomic add,
+	// not the one observed by the earlier load (another requester may have advanced off in between)
+	placeholder = newOffset - uintptr(len)
 
 	bytes := (*[]byte)(unsafe.Pointer(&reflect.SliceHeader{
 		Data: placeholder,
